@@ -163,6 +163,24 @@ def check_design(ctx, d, steps, regmap, memmap, label):
                                       'original testbench (%s, memory_value_map keyed by the original MemBlocks) on the synthesized block: '
                                       '%s cycle %d got %d want %d' % ((simcls.__name__,) + tuple(t)), dict(replay, mismatch=t, simulator=simcls.__name__))
                         break
+            # synthesize applied to its own result: still a well-formed block with the same behaviour by Input/Output name
+            if merge and ok and not memmap and not regmap and getattr(ctx, 'resynth_budget', 0) > 0:
+                ctx.resynth_budget -= 1
+                try:
+                    again = pyrtl.synthesize(update_working_block=False, merge_io_vectors=True, block=bs)
+                    again.sanity_check()
+                    real = simrun.run_real(pyrtl.Simulation, again, steps, {}, {}, 0, track=None)
+                    ctx.count('re-synthesized', 'n')
+                    if real['err'] is not None:
+                        raise RuntimeError('%s: %s' % (real['err'][1], real['err'][2]))
+                    t = simrun.compare_traces(real['trace'], base_tr, names=outs, ncycles=ncyc)
+                    if t:
+                        ok = False
+                        ctx.violation('resynthesize-vs-orig', 'synthesize(synthesize(b)): %s cycle %d got %d want %d' % tuple(t), dict(replay, mismatch=t))
+                except Exception as e:  # noqa
+                    ok = False
+                    ctx.violation('resynthesize-raises:' + type(e).__name__, 'synthesize applied to its own result (or simulating that) raised %s: %s' % (
+                        type(e).__name__, str(e)[:160]), replay)
     return ok
 
 
@@ -253,6 +271,29 @@ def main(ctx):
         rng = ctx.rng
         profile = 'small' if k % 3 else 'med'
         d = gen.rand_design(rng, profile=profile, nops=rng.randint(3, 10), max_total=40, wide_mem=False, raw=False)
+        ctx.resynth_budget = 1 if k % 4 == 0 else 0
+        if k % 3 == 1:
+            # a memory read object used twice, the second time as the next value of a narrower register (the API then
+            # connects the full-width read port to the register: an `r` net whose argument is wider than its destination)
+            mems_ = [m_ for m_ in d.mems if m_.bitwidth >= 2]
+            if mems_:
+                with pyrtl.set_working_block(d.block, no_sanity_check=True):
+                    m_ = rng.choice(mems_)
+                    src_ = sorted((w for w in d.block.wirevector_subset((Input, Register)) if len(w) >= 1), key=lambda w: w.name)
+                    a_ = rng.choice(src_)
+                    a_ = a_[0:m_.addrwidth] if len(a_) >= m_.addrwidth else a_.zero_extended(m_.addrwidth)
+                    try:
+                        word = m_[a_]
+                        ow_ = Output(m_.bitwidth, 'verif_word')
+                        ow_ <<= word
+                        rn_ = Register(max(1, m_.bitwidth // 2), 'verif_nib', reset_value=1)
+                        rn_.next <<= word
+                        on_ = Output(len(rn_), 'verif_nib_out')
+                        on_ <<= rn_
+                        d.outputs += [ow_, on_]
+                        ctx.count('register-fed-by-wider-read-port', 'added')
+                    except pyrtl.PyrtlError:
+                        pass       # read-port limit of the memory reached
         steps = gen.rand_stimulus(rng, d, rng.choice([3, 5]))
         regmap, memmap, _ = gen.rand_init(rng, d, with_default=False)
         if k % 2 == 0:
